@@ -31,7 +31,7 @@ PROP = dict(
                "meaning of source patterns); so an arm is reported redundant exactly when unreachable, and a float literal repeated in any "
                "spelling is redundant because constructors carry parsed bits. Tied to /repo on every run by diffing the redundant-arm sets "
                "of the real checker with the model's flags, plus a brute-force reachability oracle.",
-    level_note="Termination of the recursion is OPEN (see C12): theorems hold for every run that finishes. Int/float spaces unbounded in the model.",
+    level_note="Termination of the recursion is proved in C12 (C12_terminates), so the theorems are unconditional in the fuel. Int/float spaces unbounded in the model.",
     technique="Lean 4 theorems (Maranget-style induction over the matrix recursion) over a hand-written model + differential correspondence against the real checker + brute-force oracle",
     timeout=1500,
 )
